@@ -23,7 +23,7 @@ RULE = ("wishbone.Decoder geometries (data width 8-64, granularity <= data width
         "subordinates with different feature sets and an unassigned address. Distinct = canonical JSON.")
 BUDGET = {"quick": (16, 250), "thorough": (16, 5000)}
 ESSENTIAL = ["sparse", "dense", "unassigned_address", "aw0", "granularity<dw", "default_lock", "default_cti",
-             "default_bte", "sub_lacks_err", "sub_has_err", "shuffled", "stall", "refused_add_ghost", "add_after_elaboration", "readd_refused", "decoder_beyond_32_address_bits", "subordinates>=6"]
+             "default_bte", "sub_lacks_err", "sub_has_err", "shuffled", "stall", "refused_add_ghost", "readd_refused", "decoder_beyond_32_address_bits", "subordinates>=6"]
 ASSUMPTIONS = [
     "subordinates respond (ack/err/rty/stall) only while selected, as Wishbone requires; their dat_r is arbitrary",
     "dense windows onto a finer-granularity subordinate and sparse windows narrower than one decoder word are excluded by construction (open known findings K1/K2, probed by pinned cases)",
